@@ -1,30 +1,33 @@
 """C05 — ECB/CBC/CTR/CTS modes follow SP 800-38A and decrypt what they encrypt.
 
 `mode …` lines are compared code <-> model <-> spec, with two kinds of block cipher:
-  * the library's own AES / DES / TDEA (every calling form) / Serpent objects: the real mode objects run over the real
-    cipher objects; the driver answers with Model.Mode over the Lean cipher models (model column) and with Spec.Mode
-    (SP 800-38A) over the Spec ciphers FIPS 197 / FIPS 46-3 / SP 800-67 / the Serpent submission (spec column);
+  * the library's own AES / DES / TDEA (every calling form) / Serpent / Threefish-256/512/1024 (key + tweak) objects: the
+    real mode objects run over the real cipher objects; the driver answers with Model.Mode over the Lean cipher models
+    (model column) and with Spec.Mode (SP 800-38A) over the Spec ciphers FIPS 197 / FIPS 46-3 / SP 800-67 / the Serpent
+    submission / Threefish of Skein 1.3 (spec column);
   * two toy ciphers (ToyRot, ToyAff: keyed permutations of n-byte blocks, n in 8..128, mirrored line by line in
     lean/Model/ToyCipher.lean), because the modes take ANY object with .blocksize/.enc/.dec and the library's block
-    lengths are only 8 and 16 bytes (Threefish: 32/64/128).
+    lengths are only 8, 16 and (Threefish) 32/64/128 bytes.
 check_impl is the property's own predicate on the implementation: an independent reference of SP 800-38A (+ padding,
 + ciphertext stealing) written here on bytes over the cipher object's block function, the round trip with an equally
 configured fresh object, the length laws, and the printed ciphertexts of SP 800-38A appendix F for the F.1/F.2/F.5
-lines of corpus/C05.ops.  `modert …` lines run Threefish (no Lean model yet) through the real modes; their result
-is a summary (`rt-ok len=…`) which the driver predicts from the length laws alone."""
+lines of corpus/C05.ops.  `modert …` lines (round-trip summaries `rt-ok len=…`, which the driver predicts from the length
+laws alone) are still understood for replaying old evidence; no generator emits them any more: Threefish runs through
+`mode … THREEFISH <blockbytes> x<key>,x<tweak> …` lines like every other cipher."""
 from props.common import *
 
 ID = 'C05'
 LEAN_PROOFS = ['Proofs.C05', 'Proofs.C05.KatF']
 GEN_ITEMS = []
 RULE = ('op lines = (mode, cipher, block length, key, IV/counter, padding, enc|dec|rt|er, message); every mode x {AES-128/192/256, DES, '
-        'TDEA in its 5 calling forms, Serpent with several key lengths, 2 toy ciphers x block lengths 8..128} x every residue of |M| mod '
-        'block for 0..3 blocks x admissible paddings, counter halves at 2^k-1 / all-ones, SP 800-38A appendix F vectors, damaged '
-        'paddings, malformed lengths / keys; distinct lines; non-trivial = the implementation returned a value')
+        'TDEA in its 5 calling forms, Serpent with several key lengths, Threefish-256/512/1024 with key and tweak, 2 toy ciphers x block '
+        'lengths 8..128} x every residue of |M| mod block for 0..3 blocks (Threefish: 0..2 blocks, quick tier: boundary residues) x '
+        'admissible paddings, counter halves at 2^k-1 / all-ones (16/32/64-byte halves for Threefish), SP 800-38A appendix F vectors, '
+        'damaged paddings, malformed lengths / keys / tweaks; distinct lines; non-trivial = the implementation returned a value')
 TRUSTED = ['Spec.Mode / Spec.ModePad are trusted as renderings of SP 800-38A (+Addendum) and PKCS#7 / X9.23 / ISO 9797-1 method 2 '
            '(Spec.ModePad is proved equal to Spec.Padding of C09 on byte strings; appendix F vectors are checked against Spec.Mode over Spec.Aes)',
-           'Spec.Aes / Spec.Des / Spec.Serpent as renderings of FIPS 197 / FIPS 46-3 + SP 800-67 / the Serpent submission (properties C02, C03)',
-           'Threefish has no Lean model yet: for it the theorems apply only through the abstract-cipher form (`Implements`)',
+           'Spec.Aes / Spec.Des / Spec.Serpent / Spec.Threefish as renderings of FIPS 197 / FIPS 46-3 + SP 800-67 / the Serpent submission / '
+           'Skein 1.3 section 3.3 (properties C02, C03)',
            'CPython bytes slicing / BytesIO.read / generators are modelled (Model.Mode, Model.Padding), validated by this stream']
 ASSUMPTIONS = ['python -O (asserts stripped) is out of scope',
                'block length < 256 bytes for PKCS#7 / X9.23 (a pad byte must hold the pad length); the library maximum is 128',
@@ -77,18 +80,29 @@ def real_cipher(name, key):
     raise RuntimeError('unknown cipher ' + name)
 
 
-REALC = {'AES': 16, 'DES': 8, 'TDEA': 8, 'SERPENT': 16}      # cipher token of `mode` lines -> block bytes
+REALC = {'AES': (16,), 'DES': (8,), 'TDEA': (8,), 'SERPENT': (16,), 'THREEFISH': (32, 64, 128)}      # cipher token of `mode` lines -> block bytes
+
+def token_ok(cid, n, keys):
+    """the block length token of a real cipher is the one an accepted key gives the object (Threefish: blocksize = key size);
+    an unacceptable key must make the constructor raise whatever the token says"""
+    if n not in REALC.get(cid, ()): return False
+    if cid == 'THREEFISH' and len(keys[0]) in REALC[cid] and len(keys[0]) != n: return False
+    return True
 
 def cipher_obj(cid, n, keys):
     """the cipher object of a `mode` line: a toy, or a real cipher of the library built the way a user builds it"""
     if cid in TOYS:
         if len(keys) != 1: raise RuntimeError('toy key')
         return TOYS[cid](n, keys[0])
-    if cid not in REALC or REALC[cid] != n: raise RuntimeError('block length token does not match the cipher')
+    if not token_ok(cid, n, keys): raise RuntimeError('block length token does not match the cipher')
     if cid == 'TDEA':
         from crysp.des import TDEA
         if not 1 <= len(keys) <= 3: raise RuntimeError('TDEA key token')
         return TDEA(*keys)
+    if cid == 'THREEFISH':
+        from crysp.threefish import Threefish
+        if len(keys) != 2: raise RuntimeError('THREEFISH key token (x<key>,x<tweak>)')
+        return Threefish(keys[0], keys[1])
     if len(keys) != 1: raise RuntimeError('key token')
     return real_cipher({'AES': 'AES', 'DES': 'DES', 'SERPENT': 'Serpent'}[cid], keys[0])
 
@@ -107,6 +121,7 @@ def key_ok(cid, n, keys):
     if cid == 'AES': return len(keys[0]) in (16, 24, 32)
     if cid == 'DES': return len(keys[0]) == 8
     if cid == 'SERPENT': return len(keys[0]) <= 32
+    if cid == 'THREEFISH': return len(keys) == 2 and n in (32, 64, 128) and len(keys[0]) == n and len(keys[1]) == 16
     if cid == 'TDEA':
         if len(keys) == 1: return len(keys[0]) in (8, 16, 24)
         return all(len(k) == 8 for k in keys)
@@ -142,7 +157,7 @@ def parse(line):
 def run_impl(line):
     op, mode, cid, n, key, iv, pad, verb, msg = parse(line)
     if op == 'mode':
-        if cid not in TOYS and REALC.get(cid) != n: raise RuntimeError('block length token does not match the cipher')
+        if cid not in TOYS and not token_ok(cid, n, key): raise RuntimeError('block length token does not match the cipher')
         if verb not in ('enc', 'dec', 'rt', 'enc2', 'er', 'xd'): raise RuntimeError('verb ' + verb)
         mk = lambda: make_mode(mode, cipher_obj(cid, n, key), iv, pad)
         def go():
@@ -483,7 +498,7 @@ def real_dec_cases(tier, rng, keys=None):
     """decryption side with the real ciphers: arbitrary strings as ciphertexts (every string of >= 1 block is a CTS ciphertext;
     ECB/CBC: padding errors), 'padded' plaintexts with good and damaged paddings (verb xd), wrong ciphertext lengths"""
     for cid, n, ks, ktag, full in (keys or real_keys(tier, rng)):
-        if tier == 'quick' and ktag not in ('AES-128', 'DES', 'TDEA-3args', 'Serpent-128'): continue
+        if tier == 'quick' and ktag not in ('AES-128', 'DES', 'TDEA-3args', 'Serpent-128', 'Threefish-256', 'Threefish-512', 'Threefish-1024'): continue
         for mode in MODES:
             for pad in admissible(mode):
                 for L in sorted({n, n + 1, 2 * n - 1, 2 * n, 2 * n + 3, 3 * n, 4 * n - 1} if tier != 'quick' or mode.startswith('CTS') else {n + 1, 2 * n, 3 * n}):
@@ -527,7 +542,83 @@ def xd_toy_cases(tier, rng):
                         yield mline(mode, cid, n, key, iv, pad, 'xd', rb(rng, n * rng.choice([0, 1, 2])) + lastp), 'padded-plaintext/%s/%s' % (mode, pad)
 
 
-REAL = [('Threefish', 32, 32), ('Threefish', 64, 64), ('Threefish', 128, 128)]     # no Lean model yet: summary lines only
+# ---------------------------------------------------------------------------------------------
+# Threefish-256/512/1024: `mode … THREEFISH <blockbytes> x<key>,x<tweak> …`
+TF_SIZES = (32, 64, 128)
+
+def threefish_keys(tier, rng):
+    """(cipher token, block bytes, [key, tweak], tag, full): a random key/tweak per size; thorough: also the all-ones key and
+    tweak (every carry of the key-schedule additions) and a second random draw"""
+    out = []
+    for n in TF_SIZES:
+        out.append(('THREEFISH', n, [rb(rng, n), rb(rng, 16)], 'Threefish-%d' % (8 * n), False))
+    if tier != 'quick':
+        for n in TF_SIZES:
+            out.append(('THREEFISH', n, [b'\xff' * n, b'\xff' * 16], 'Threefish-%d' % (8 * n), False))
+            out.append(('THREEFISH', n, [rb(rng, n), bytes(16)], 'Threefish-%d' % (8 * n), False))
+    return out
+
+def threefish_lengths(n, tier):
+    """|M| over 0..2 blocks (+1): thorough every length, quick the boundary residues of every block count"""
+    if tier != 'quick': return list(range(0, 2 * n + 2))
+    return sorted({0, 1, n // 2, n - 1, n, n + 1, n + n // 2 + 1, 2 * n - 1, 2 * n, 2 * n + 1})
+
+def threefish_counters(n, rng):
+    """counter arguments of CTR: None, random, and running halves (16/32/64 bytes) at / just below the wrap-around and at the
+    byte-carry boundaries 2^k-1"""
+    h = n // 2; w = n - h
+    full = (1 << (8 * w)) - 1
+    out = [None, rb(rng, n)]
+    for v in (full, full - 1, full - 2, (1 << 64) - 1, (1 << (8 * w - 8)) - 1, (1 << (8 * w - 1)) - 1, (1 << (8 * w - 1)), 255):
+        out.append(rb(rng, h) + v.to_bytes(w, 'big'))
+    out.append(b'\xff' * n)
+    out.append(bytes(h) + b'\xff' * w)
+    return out
+
+def threefish_cases(tier, rng, keys=None):
+    """every mode x Threefish-256/512/1024 x admissible padding x |M| over 0..2 blocks (`er`: ciphertext and its decryption by
+    a fresh object), CTR with counter halves near the wrap-around, the decryption side, refused keys / tweaks / IVs"""
+    keys = keys or threefish_keys(tier, rng)
+    for cid, n, ks, ktag, _ in keys:
+        ctrs = threefish_counters(n, rng)
+        j = 0
+        for mode in MODES:
+            for pad in admissible(mode):
+                for L in threefish_lengths(n, tier):
+                    j += 1
+                    iv = rb(rng, n) if mode in ('CBC', 'CTS_CBC') else None
+                    if mode == 'CTR': iv = ctrs[j % len(ctrs)]
+                    yield rline(mode, cid, n, ks, iv, pad, 'er', rb(rng, L)), 'real/%s/%s/%s' % (ktag, mode, pad)
+        # the counter: three blocks from every start value (full-1 -> full -> 0 wraps inside the running half)
+        for iv in ctrs:
+            for L in ((2 * n + 3,) if tier == 'quick' else (2 * n + 3, 3 * n, 1)):
+                yield rline('CTR', cid, n, ks, iv, 'nopadding', 'er', rb(rng, L)), 'real/%s/CTR/counter-boundary' % ktag
+            yield rline('CTR', cid, n, ks, iv, 'nopadding', 'dec', rb(rng, n + 1)), 'real-dec/%s/CTR/counter-boundary' % ktag
+    yield from real_dec_cases(tier, rng, keys)
+    # refused configurations: key / tweak lengths the constructor rejects (before any mode object exists), IV / counter lengths
+    bad = []
+    for n in TF_SIZES:
+        bad += [(n, [rb(rng, n - 1), rb(rng, 16)]), (n, [rb(rng, n + 1), rb(rng, 16)]), (n, [rb(rng, n), rb(rng, 15)]),
+                (n, [rb(rng, n), rb(rng, 17)]), (n, [rb(rng, n), b''])]
+    bad += [(32, [b'', rb(rng, 16)]), (32, [rb(rng, 16), rb(rng, 16)]), (128, [rb(rng, 256), rb(rng, 16)]), (64, [rb(rng, 48), rb(rng, 32)])]
+    for n, ks in bad:
+        for mode in MODES:
+            iv = rb(rng, n) if mode in ('CBC', 'CTS_CBC') else None
+            for L in (0, n):
+                yield rline(mode, 'THREEFISH', n, ks, iv, 'nopadding', 'er', rb(rng, L)), 'real-malformed/threefish-key-tweak'
+            yield rline(mode, 'THREEFISH', n, ks, iv, 'nopadding', 'dec', rb(rng, 2 * n)), 'real-malformed/threefish-key-tweak'
+    for n in TF_SIZES:
+        ks = [rb(rng, n), rb(rng, 16)]
+        for mode in ('CBC', 'CTS_CBC', 'CTR'):
+            for ivl in (0, n - 1, n + 1, n // 2):
+                yield rline(mode, 'THREEFISH', n, ks, rb(rng, ivl), 'nopadding', 'er', rb(rng, 2 * n)), 'real-malformed/iv-length'
+        for mode in ('CTS_ECB', 'CTS_CBC', 'ECB', 'CBC'):       # outside the message domain
+            iv = rb(rng, n) if 'CBC' in mode else None
+            for L in (0, n - 1, n + 3):
+                yield rline(mode, 'THREEFISH', n, ks, iv, 'nopadding', 'er', rb(rng, L)), 'real-malformed/out-of-domain-length'
+
+
+REAL = []         # ciphers without a Lean model (summary lines `modert`): none any more
 
 def real_cases(tier, rng):
     for name, n, kl in REAL:
@@ -607,7 +698,7 @@ def cases(tier, rng):
             yield from dec_cases('quick', rng, [n])
             yield from real_mode_cases('quick', rng)
             yield from real_dec_cases('thorough', rng, real_keys('quick', rng))
-            yield from real_cases('quick', rng)
+            yield from threefish_cases('quick', rng)
         return
     sizes = [8, 16, 32, 64, 128]
     yield from toy_cases(tier, rng, sizes)
@@ -617,7 +708,8 @@ def cases(tier, rng):
     yield from twice_cases(tier, rng)
     yield from xd_toy_cases(tier, rng)
     yield from random_cases(tier, rng, 4000 if tier == 'quick' else 60000)
-    real = list(real_mode_cases(tier, rng)) + list(real_dec_cases(tier, rng)) + list(real_malformed_cases(tier, rng)) + list(real_cases(tier, rng))
+    real = (list(real_mode_cases(tier, rng)) + list(real_dec_cases(tier, rng)) + list(real_malformed_cases(tier, rng)) + list(real_cases(tier, rng))
+            + list(threefish_cases(tier, rng)))
     rng.shuffle(real)              # lines of very different cost: mix them so that the worker chunks are balanced
     yield from real
     if tier == 'thorough':
@@ -637,16 +729,16 @@ def shrink(line):
 
 
 LEVEL_TEXT = ('Lean 4 theorems about Model.Mode (the hand-written mirror of crysp/mode.py over a block cipher object), stated (a) for every '
-              'cipher satisfying the permutation hypotheses and (b) for the library\'s AES-128/192/256, DES, TDEA (every calling form) and Serpent '
-              '(keys of 0..32 bytes) with NO hypothesis on the cipher left: the C03 permutation theorems and the C02 refinement theorems of each '
-              'cipher are composed, so that the mode output equals SP 800-38A over FIPS 197 / FIPS 46-3 / SP 800-67 / the Serpent submission, for '
-              'every key, IV / counter block, admissible padding and message length. The models are tied to the current source by a '
+              'cipher satisfying the permutation hypotheses and (b) for the library\'s AES-128/192/256, DES, TDEA (every calling form), Serpent '
+              '(keys of 0..32 bytes) and Threefish-256/512/1024 (every key and 16-byte tweak) with NO hypothesis on the cipher left: the C03 '
+              'permutation theorems and the C02 refinement theorems of each cipher are composed, so that the mode output equals SP 800-38A over '
+              'FIPS 197 / FIPS 46-3 / SP 800-67 / the Serpent submission / Threefish of Skein 1.3, for every key, IV / counter block (default '
+              'counter halves of 4..64 bytes), admissible padding and message length. The models are tied to the current source by a '
               'correspondence stream that drives the real mode objects over the real cipher objects (and over toy ciphers of block length 8..128 '
               'bytes), compared with Model.Mode over the Lean cipher models and Spec.Mode over the Spec ciphers, and evaluates an independent '
               'SP 800-38A reference and the appendix F vectors on the real code.')
 LEVEL_NOTE = ('Trusted: Lean kernel; axioms within {propext, Classical.choice, Quot.sound}; Spec.Mode/Spec.ModePad as renderings of SP 800-38A, its '
               'addendum and the padding methods (Spec.ModePad proved equal to Spec.Padding on byte strings; appendix F.1.1/F.2.1/F.5.1 evaluated '
-              'through Spec.Mode over Spec.Aes in the kernel); Spec.Aes/Des/Serpent; extract.py/runcheck.py/props/C05.py. Threefish has no Lean '
-              'model yet (hook: LibCipher in Proofs/Lemmas/ModeInst.lean); for it only the abstract-cipher theorems and summary lines apply. '
+              'through Spec.Mode over Spec.Aes in the kernel); Spec.Aes/Des/Serpent/Threefish; extract.py/runcheck.py/props/C05.py. '
               'Theorem list: evidence/C05.json coverage.theorems.')
 TECHNIQUE = 'Lean 4 proof (induction over block lists, cipher refinement composed with C02/C03) + correspondence check with the real and toy ciphers'
